@@ -38,6 +38,7 @@ type Engine struct {
 	opaqueT         types.Type
 	errorStringPtrT types.Type
 	wrapErrorPtrT   types.Type
+	valueCtxPtrT    types.Type
 	errorIface      *types.Interface
 	timeT           types.Type
 	tickerT         types.Type
@@ -173,6 +174,11 @@ func (e *Engine) setupTypes() error {
 		return err
 	}
 	e.wrapErrorPtrT = types.NewPointer(we)
+	vc, err := look("context", "valueCtx")
+	if err != nil {
+		return err
+	}
+	e.valueCtxPtrT = types.NewPointer(vc)
 	if e.timeT, err = look("time", "Time"); err != nil {
 		return err
 	}
@@ -309,7 +315,7 @@ func (w *Worker) runPath(harness *ssa.Function, prefix []int) (ex *Exec, end pat
 	ex = &Exec{eng: e, w: w, tc: newTermCtx(), sol: w.sol, prefix: prefix,
 		globals: map[*ssa.Global]*Value{}, initDone: map[*ssa.Package]bool{},
 		mutexes: map[*Value]*mutexState{}, wgs: map[*Value]*wgState{},
-		reached: map[string]bool{}, assumes: map[string]bool{}, hashSyms: map[string]*Term{},
+		reached: map[string]bool{}, assumes: map[string]bool{}, hashSyms: map[string]*Term{}, wfShard: map[string]int{},
 		errCodes: map[*Value]int{}, stubsHit: map[string]bool{}, funcsHit: map[*ssa.Function]bool{},
 		tracked: map[string]Value{}, cfg: map[string]int64{},
 		maxVisits: e.maxVisits, clock: 1600000000 * 1e9}
@@ -374,7 +380,12 @@ func (ex *Exec) where() string {
 		}
 		pos += fmt.Sprintf(" [%s]", in)
 	}
-	return fmt.Sprintf(" @ %s%s", fr.fn, pos)
+	stack := ""
+	fs := ex.cur.frames
+	for i := len(fs) - 2; i >= 0 && i >= len(fs)-7; i-- {
+		stack += " < " + fs[i].fn.String()
+	}
+	return fmt.Sprintf(" @ %s%s%s", fr.fn, pos, stack)
 }
 
 func sortedSet(m map[string]bool) []string {
